@@ -239,6 +239,34 @@ def _merge(a, b):
         a["sample_smt2"] = b["sample_smt2"]
 
 
+def lean_check(tier):
+    """The OID axioms are Lean-checked lemmas: quick = the stamp matches the file; thorough = `lean` re-checks the file."""
+    import hashlib
+    import subprocess
+    res = {"stand_in": "lean:lemmas/OidOrder.lean", "label": "machine-checked lemma library (Lean 4 + Mathlib)", "violations": [],
+           "known": [], "error": None}
+    path = os.path.join(VERIF, "lemmas", "OidOrder.lean")
+    try:
+        sha = hashlib.sha256(open(path, "rb").read()).hexdigest()
+        stamp = json.load(open(os.path.join(VERIF, "lemmas", "OidOrder.stamp.json")))
+        res["sha256"] = sha
+        if "sorry" in open(path).read():
+            res["error"] = "lemma file contains sorry"
+        if stamp.get("sha256") != sha:
+            res["error"] = "lemma file changed since it was last checked by lean (stamp mismatch)"
+        if tier == "thorough" and res["error"] is None:
+            t0 = time.time()
+            p = subprocess.run(["lean", path], capture_output=True, text=True, timeout=1800)
+            res["lean_seconds"] = round(time.time() - t0, 1)
+            if p.returncode != 0 or "error" in (p.stdout + p.stderr):
+                res["error"] = "lean rejected the lemma file: " + (p.stdout + p.stderr)[-800:]
+            else:
+                res["lean"] = "accepted"
+    except Exception as exc:
+        res["error"] = "lemma check failed to run: %r" % (exc,)
+    return res
+
+
 def run_standin(suite, tier, seed, prop, open_ids):
     """A bounded stand-in (native run of the real code on an enumerated domain). Never counted as proved."""
     import subprocess
@@ -312,6 +340,9 @@ def run_check(prop, units, tier, seed, level, technique_text, trusted_base, repl
     extra = []
     native_witness = None
     for suite in (extra_checks or []):
+        if suite == "lean":
+            extra.append(lean_check(tier))
+            continue
         e = run_standin(suite, tier, seed, prop, {f["id"] for f in open_f})
         extra.append(e)
         if e.get("violations") and native_witness is None:
